@@ -224,6 +224,7 @@ theorem term_getItem {V : Type} (W : World V) (v : V) (i : Nat) : Term (getItem 
 /-! ### automation: peel one constructor of a `do` block -/
 
 macro "safe_step" : tactic => `(tactic| first
+  | assumption
   | exact safe_pure _
   | exact safe_raiseError
   | exact safe_clearTmp
@@ -243,6 +244,7 @@ macro "safe_step" : tactic => `(tactic| first
 macro "safe_auto" : tactic => `(tactic| repeat' safe_step)
 
 macro "term_step" : tactic => `(tactic| first
+  | assumption
   | exact term_pure _
   | exact term_raiseError
   | exact term_clearTmp
